@@ -10,10 +10,12 @@ TRUSTED = [
     "hand-written models Model/Games.v of games/{ffow,savage2,jc2m,mindustry,theship}/protocol.rs and games/battalion1944.rs on top of the Buffer, Valve and GameSpy 3 models",
     "Spec/GamesSpec.v: wire encoders and expected responses per game, generators driven by the seed inside Coq; The Ship and Battalion 1944 reuse the Valve specification (ValveSpec.v)",
     "correspondence: extraction, driver, harness running each game's real query_with_timeout (query for Battalion 1944) under the scripted transport",
-    "Eco (HTTP + JSON through ureq / serde_json) is outside the scripted transport; its field mapping is covered by C15's translated view only",
+    "Eco: Model/Eco.v models the Info / Response mapping over the parsed JSON value; the JSON text -> value step (serde_json) and HTTP (ureq: Content-Length, chunked, close-delimited bodies) are oracles / run for real: the harness starts a web server on loopback that sends the case's reply, the real eco::query_with_timeout runs against it; the case carries Python's reading of the body (integers exactly, the f64 nearest to every number) for the model, and the check computes the expected response from the state by its own table",
 ]
 RULE = ("seed-generated states per game (numbers at type boundaries, empty and multi-byte strings, Mindustry strings of 127 / 128 / 129 / 200 / 255 bytes, optional trailing mode name, JC2M reported count below / equal / above the listed players and dishonest list count, "
         "FFOW server / environment letters in both cases, The Ship and Battalion 1944 from the Valve state generator with bat_* rules present or absent); mutations: truncation at a random byte, bit flip; "
+        "Eco: states with every member at its type's boundaries (u32 0 / 1 / 2^32-1, floats with and without fraction or exponent, empty / multi-byte / escaped strings, descriptions of 5000-20000 bytes, 0-5 player names, 0-3 achievements), members in any order among unknown members, "
+        "sent with Content-Length, chunked, or delimited by closing the connection; malformed: a member missing, twice, of another JSON type, out of the u32 range, body cut; an achievements key twice (last value kept); "
         "non-trivial = any; distinct by case bytes")
 GAMES = ["ffow", "savage2", "jc2m", "mindustry", "theship", "battalion1944"]
 LIMIT = [1400, 1024, 2048, 500, 1400, 1400]
@@ -54,13 +56,232 @@ def gen_cases(tier, rng):
                     evs2[i] = bytes(b)
             cases.append({"id": "%s/mut/%d" % (GAMES[game], s), "hex": game_case(game, port, None, evs2),
                           "meta": {"stream": GAMES[game] + "-malformed"}})
+    cases += eco_cases(tier, rng)
     return cases
+
+
+# ---- Eco (HTTP + JSON) ----------------------------------------------------------------------------------
+# the members of the Info object: (name in the document, type), and the response field each one goes to
+ECO_INFO = [("External", "bool"), ("GamePort", "u32"), ("WebPort", "u32"), ("IsLAN", "bool"), ("Description", "str"), ("DetailedDescription", "str"),
+            ("Category", "str"), ("OnlinePlayers", "u32"), ("TotalPlayers", "u32"), ("OnlinePlayersNames", "names"), ("AdminOnline", "bool"),
+            ("TimeSinceStart", "f64"), ("TimeLeft", "f64"), ("Animals", "u32"), ("Plants", "u32"), ("Laws", "u32"), ("WorldSize", "str"), ("Version", "str"),
+            ("EconomyDesc", "str"), ("SkillSpecializationSetting", "str"), ("Language", "str"), ("HasPassword", "bool"), ("HasMeteor", "bool"),
+            ("DistributionStationItems", "str"), ("Playtimes", "str"), ("DiscordAddress", "str"), ("IsPaused", "bool"), ("ActiveAndOnlinePlayers", "u32"),
+            ("PeakActivePlayers", "u32"), ("MaxActivePlayers", "u32"), ("ShelfLifeMultiplier", "f64"), ("ExhaustionAfterHours", "f64"), ("IsLimitingHours", "bool"),
+            ("ServerAchievementsDict", "dict"), ("RelayAddress", "str"), ("Access", "str"), ("JoinUrl", "str")]
+ECO_RESPONSE = [("external", "External"), ("port", "GamePort"), ("query_port", "WebPort"), ("is_lan", "IsLAN"), ("description", "Description"),
+                ("description_detailed", "DetailedDescription"), ("description_economy", "EconomyDesc"), ("category", "Category"), ("players_online", "OnlinePlayers"),
+                ("players_maximum", "TotalPlayers"), ("players", "OnlinePlayersNames"), ("admin_online", "AdminOnline"), ("time_since_start", "TimeSinceStart"),
+                ("time_left", "TimeLeft"), ("animals", "Animals"), ("plants", "Plants"), ("laws", "Laws"), ("world_size", "WorldSize"), ("game_version", "Version"),
+                ("skill_specialization_setting", "SkillSpecializationSetting"), ("language", "Language"), ("has_password", "HasPassword"), ("has_meteor", "HasMeteor"),
+                ("distribution_station_items", "DistributionStationItems"), ("playtimes", "Playtimes"), ("discord_address", "DiscordAddress"), ("is_paused", "IsPaused"),
+                ("active_and_online_players", "ActiveAndOnlinePlayers"), ("peak_active_players", "PeakActivePlayers"), ("max_active_players", "MaxActivePlayers"),
+                ("shelf_life_multiplier", "ShelfLifeMultiplier"), ("exhaustion_after_hours", "ExhaustionAfterHours"), ("is_limiting_hours", "IsLimitingHours"),
+                ("server_achievements_dict", "ServerAchievementsDict"), ("relay_address", "RelayAddress"), ("access", "Access"), ("connect", "JoinUrl")]
+FLOAT_TEXTS = ["0", "0.0", "12.5", "3600", "-1.5", "1e3", "0.1", "86400.25", "1.5e10", "2.5E-3", "4294967296", "123456.789", "1.7976931348623157e308", "-0.75"]
+STRS = ["", "Eco", "a b", "caf\u00e9 \u20ac", "tab\there", "quote\"back\\slash", "<b>bold</b>", "\U0001f600", "line\nbreak", "0", "null", "\x01\x7f"]
+
+
+class Num:
+    def __init__(self, text):
+        import struct
+        self.text = text
+        self.z = int(text) if text.lstrip("-").isdigit() else None
+        self.bits = struct.unpack("<Q", struct.pack("<d", float(text)))[0]
+
+
+def show_bytes(b):
+    return '"' + "".join(chr(c) if 32 <= c < 127 and c not in (34, 92) else "\\x%02x" % c for c in b) + '"'
+
+
+def eco_gen_state(r, long_text):
+    import json as _json
+    st = {}
+    for key, ty in ECO_INFO:
+        if ty == "bool":
+            st[key] = r.chance(1, 2)
+        elif ty == "u32":
+            st[key] = Num(str(r.choice([0, 1, 2, 3000, 3001, 65535, 65536, 4294967295, r.below(1 << 32)])))
+        elif ty == "f64":
+            st[key] = Num(r.choice(FLOAT_TEXTS))
+        elif ty == "str":
+            st[key] = r.choice(STRS) if not r.chance(1, 6) else "".join(chr(r.choice([0x41, 0x7a, 0x20, 0xe9, 0x20ac, 0x22, 0x5c, 0x3c])) for _ in range(r.below(40)))
+        elif ty == "names":
+            st[key] = [r.choice(STRS) for _ in range(r.below(6))]
+        else:
+            ks = ["First", "caf\u00e9", "a b", "Z", ""]
+            st[key] = dict((k, r.choice(STRS)) for k in ks[:r.below(4)])
+    if long_text:
+        st["DetailedDescription"] = ("<b>Welcome</b> to the server. " * (200 + r.below(500)))[:5000 + r.below(15000)]
+    return st
+
+
+def eco_json_text(st, r, drop=None, retype=None, dup=None):
+    """the document: members in a random order among unknown ones; numbers with the text chosen"""
+    import json as _json
+
+    def val(v):
+        if isinstance(v, Num):
+            return v.text
+        if isinstance(v, bool):
+            return "true" if v else "false"
+        if isinstance(v, str):
+            return _json.dumps(v, ensure_ascii=r.chance(1, 2))
+        if isinstance(v, list):
+            return "[" + ",".join(val(x) for x in v) + "]"
+        items = [(k, x) for k, x in v.items()]
+        if items and r.chance(1, 3):
+            # the same key earlier with another value: a map keeps the last one
+            items.insert(0, (items[-1][0], "stale"))
+        return "{" + ",".join(_json.dumps(k) + ":" + val(x) for k, x in items) + "}"
+    members = [(k, val(st[k])) for k, _ in ECO_INFO if k != drop]
+    if dup:
+        members.append(dup)
+    if retype:
+        members = [(k, retype[1] if k == retype[0] else t) for k, t in members]
+    for extra in [("Extra", "1"), ("ServerTimeZone", '"UTC"'), ("Nested", '{"Info":{"GamePort":1},"x":[1,2.5,null]}'), ("gamePort", "7"), ("Collaborators", "[]")][:r.below(6)]:
+        members.insert(r.below(len(members) + 1), extra)
+    for a in range(len(members) - 1, 0, -1):
+        if r.chance(1, 2):
+            b = r.below(a + 1)
+            members[a], members[b] = members[b], members[a]
+    sp = " " if r.chance(1, 3) else ""
+    info = "{" + ("," + sp).join(_json.dumps(k) + ":" + sp + t for k, t in members) + "}"
+    top = [("Info", info)]
+    if r.chance(1, 3):
+        top.insert(r.below(2), ("Other", '{"Description":"not this one"}'))
+    return ("{" + ",".join(_json.dumps(k) + ":" + t for k, t in top) + "}").encode("utf-8")
+
+
+def eco_http(body, mode, r):
+    head = b"HTTP/1.1 200 OK\r\nContent-Type: application/json; charset=utf-8\r\nServer: Kestrel\r\n"
+    if mode == "length":
+        return head + b"Content-Length: %d\r\n\r\n" % len(body) + body, r.chance(1, 2)
+    if mode == "chunked":
+        out = head + b"Transfer-Encoding: chunked\r\n\r\n"
+        i = 0
+        while i < len(body):
+            n = r.choice([1, 7, 100, 1000, 4096, 5012, 8192])
+            out += b"%x\r\n" % len(body[i:i + n]) + body[i:i + n] + b"\r\n"
+            i += n
+        return out + b"0\r\n\r\n", r.chance(1, 2)
+    return head + b"Connection: close\r\n\r\n" + body, True
+
+
+class Pairs(list):
+    """a JSON object as the list of its members, in document order, duplicates kept"""
+
+
+def eco_tree(body):
+    """what a JSON reader makes of the body: the tree for the model, or None"""
+    import json as _json
+
+    def bad(_):
+        raise ValueError("constant")
+    try:
+        v = _json.loads(body.decode("utf-8"), parse_int=Num, parse_float=Num, parse_constant=bad, object_pairs_hook=Pairs)
+    except (ValueError, UnicodeDecodeError, RecursionError):
+        return None
+    return v
+
+
+def enc_eco_tree(v):
+    """the tree encoding of tools/view_common.py, with objects as member lists and numbers as $num nodes"""
+    if v is None:
+        return b"\x00"
+    if v is False:
+        return b"\x01"
+    if v is True:
+        return b"\x02"
+    if isinstance(v, Num):
+        z = v.z if v.z is not None and abs(v.z) < (1 << 64) else None
+        zi = b"\x00" if z is None else b"\x03" + (b"\x01" if z < 0 else b"\x00") + abs(z).to_bytes(8, "big")
+        return (b"\x06" + (1).to_bytes(2, "big") + (4).to_bytes(2, "big") + b"$num"
+                + b"\x05" + (2).to_bytes(2, "big") + zi + b"\x03\x00" + v.bits.to_bytes(8, "big"))
+    if isinstance(v, str):
+        b = v.encode("utf-8")
+        return b"\x04" + len(b).to_bytes(2, "big") + b
+    if isinstance(v, Pairs):
+        out = b"\x06" + len(v).to_bytes(2, "big")
+        for k, x in v:
+            kb = k.encode("utf-8")
+            out += len(kb).to_bytes(2, "big") + kb + enc_eco_tree(x)
+        return out
+    return b"\x05" + len(v).to_bytes(2, "big") + b"".join(enc_eco_tree(x) for x in v)
+
+
+def eco_expected(st):
+    out = []
+    for name, key in ECO_RESPONSE:
+        v = st[key]
+        if isinstance(v, Num):
+            ty = dict(ECO_INFO)[key]
+            out.append("%s:%s" % (name, str(v.z) if ty == "u32" else "d%d" % v.bits))
+        elif isinstance(v, bool):
+            out.append("%s:%s" % (name, "true" if v else "false"))
+        elif isinstance(v, str):
+            out.append("%s:%s" % (name, show_bytes(v.encode("utf-8"))))
+        elif isinstance(v, list):
+            out.append("%s:[%s]" % (name, ",".join("{name:%s}" % show_bytes(x.encode("utf-8")) for x in v)))
+        else:
+            items = sorted((show_bytes(k.encode("utf-8")), show_bytes(x.encode("utf-8"))) for k, x in v.items())
+            out.append("%s:{%s}" % (name, ",".join("%s:%s" % kv for kv in sorted(items, key=lambda kv: kv[0].encode("latin1", "replace")))))
+    return "Ok({" + ",".join(out) + "})"
+
+
+def eco_case(v6, reply, close, tree):
+    enc_tree = enc_eco_tree
+    return (bytes([52, 1 if v6 else 0]) + len(reply).to_bytes(4, "big") + reply + bytes([1 if close else 0])
+            + (b"\x00" if tree is None else b"\x01" + enc_tree(tree))).hex()
+
+
+def eco_cases(tier, rng):
+    r = rng.fork("eco")
+    out = []
+    n = 40 if tier == "quick" else 1500
+    for i in range(n):
+        st = eco_gen_state(r, long_text=(i % 3 == 0))
+        mode = ["length", "chunked", "close"][i % 3 if i % 9 else r.below(3)]
+        if i % 3 == 0:
+            mode = ["chunked", "close", "length"][(i // 3) % 3]
+        body = eco_json_text(st, r)
+        reply, close = eco_http(body, mode, r)
+        out.append({"id": "eco/%d" % i, "hex": eco_case(i % 7 == 3, reply, close, eco_tree(body)),
+                    "meta": {"stream": "eco-" + mode, "eco_expected": eco_expected(st), "body": len(body)}})
+        # malformed: a member missing, of another JSON type, a count out of range, the body cut short
+        k = r.below(5)
+        key, ty = ECO_INFO[r.below(len(ECO_INFO))]
+        if k == 0:
+            body2 = eco_json_text(st, r, drop=key)
+        elif k == 1:
+            wrong = {"bool": '"true"', "u32": r.choice(["-1", "4294967296", "1.5", '"7"', "null"]), "f64": r.choice(['"1.0"', "null", "true"]), "str": r.choice(["1", "null", "[]"]),
+                     "names": r.choice(['["a",1]', '"a"', "{}"]), "dict": r.choice(['{"a":1}', "[]", '"x"'])}[ty]
+            body2 = eco_json_text(st, r, retype=(key, wrong))
+        elif k == 2:
+            body2 = body[:r.below(len(body))]
+        elif k == 3:
+            body2 = eco_json_text(st, r).replace(b'"Info"', b'"info"', 1)
+        else:
+            # the member twice (the second time with another value of its type): serde refuses a duplicate field
+            body2 = eco_json_text(st, r, dup=(key, {"bool": "false", "u32": "5", "f64": "2.5", "str": '"again"', "names": "[]", "dict": "{}"}[ty]))
+        reply2, close2 = eco_http(body2, "length" if k != 2 else "close", r)
+        out.append({"id": "eco/bad/%d" % i, "hex": eco_case(False, reply2, close2, eco_tree(body2)),
+                    "meta": {"stream": "eco-malformed", "eco_error": True, "body": len(body2)}})
+    return out
 
 
 def oracle(case, impl, side):
     m = case["meta"]
     if impl is None:
         return ("no-output", "no output")
+    if m["stream"].startswith("eco"):
+        if "PANIC" in impl or impl in ("ABORT", "HANG"):
+            return ("panic:eco", "eco query does not return: %s %s" % (impl[:80], side[:200]))
+        if "eco_expected" in m and impl != m["eco_expected"]:
+            return ("decode-mismatch:" + m["stream"], "an Eco reply of %d bytes (%s) is not returned member by member: got %s, sent %s" % (m["body"], m["stream"], impl[:400], m["eco_expected"][:400]))
+        if m.get("eco_error") and impl.startswith("Ok("):
+            return ("eco-fabricated", "an Eco reply with a member missing or of the wrong type gave a response: %s" % impl[:300])
+        return None
     res, trace = split_result(impl)
     if "PANIC" in impl or impl in ("ABORT", "HANG"):
         return ("panic:" + m["stream"], "query does not return: %s %s" % (impl[:80], side[:200]))
